@@ -88,7 +88,8 @@ def generate(rng, tier, focus, k=None):
     tr["exclude"] = [s for s in range(n_sp) if status[str(s)] == "complete" and rng.random() < 0.25]
     tr["exclude_bogus"] = rng.random() < 0.2
     tr["distractors"] = {"txt": rng.random() < 0.5, "absent_species": rng.random() < 0.5, "system_in_list": rng.random() < 0.5,
-                         "start_coordinates": rng.random() < 0.5, "uppercase_ext": rng.random() < 0.2}
+                         "start_coordinates": rng.random() < 0.5, "uppercase_ext": rng.random() < 0.2,
+                         "near_miss": rng.random() < 0.4}
     tr["list_seed"] = rng.randrange(2 ** 31)
     tr["set_seeds"] = [rng.randrange(2 ** 31) for _ in range(3)]
     tr["hashseeds"] = [rng.randrange(1, 4000) for _ in range(2)]
@@ -316,6 +317,17 @@ def build_candidates(trace, d):
         q = os.path.join(d, "GHOST_AA.gro")
         with open(q, "w") as f:
             f.write(W.end_gro_text(ghost["end"]))
+        cands.append(q)
+    if dis.get("near_miss"):
+        # a topology of ANOTHER molecule whose residue signature (name, atom count) exists in the system but whose atom
+        # names do not match: the system must refuse it and be none the worse for having been asked
+        k = trace["list_seed"] % len(world["species"])
+        nm = dict(world["species"][k]["start"])
+        nm["name"] = "NEARMISS"
+        nm["atom_names"] = ["Q" + a[:3] for a in nm["atom_names"]]
+        q = os.path.join(d, "NEARMISS_CG.itp")
+        with open(q, "w") as f:
+            f.write(gen.itp_text(nm))
         cands.append(q)
     if dis["system_in_list"]:
         cands.append(paths["system"])
